@@ -37,6 +37,10 @@ type StorePlan struct {
 	SubmitMs int64    `json:"submitMs"`        // submit time offset (distinct per plan)
 	Status   int      `json:"status"`          // initial plan status written by Create
 	BadAt    string   `json:"badAt,omitempty"` // path of the action whose request cannot be serialised
+	// Steal > 0: one child object of this plan (kind StealKind: action | seq | block |
+	// checks) carries the id of the corresponding object of plan Steal-1.
+	Steal     int    `json:"steal,omitempty"`
+	StealKind string `json:"stealKind,omitempty"`
 }
 
 // AttGen describes one generated attempt.
@@ -364,6 +368,57 @@ func objByPath(idx int, p *workflow.Plan, path string) any {
 	return nil
 }
 
+// childID returns the id field of the first object of the kind in the plan.
+func childID(p *workflow.Plan, kind string) *uuid.UUID {
+	switch kind {
+	case "block":
+		if len(p.Blocks) > 0 {
+			return &p.Blocks[0].ID
+		}
+	case "seq":
+		if len(p.Blocks) > 0 && len(p.Blocks[0].Sequences) > 0 {
+			return &p.Blocks[0].Sequences[0].ID
+		}
+	case "action":
+		if len(p.Blocks) > 0 && len(p.Blocks[0].Sequences) > 0 && len(p.Blocks[0].Sequences[0].Actions) > 0 {
+			return &p.Blocks[0].Sequences[0].Actions[0].ID
+		}
+	case "checks":
+		for _, c := range []*workflow.Checks{p.BypassChecks, p.PreChecks, p.ContChecks, p.PostChecks, p.DeferredChecks} {
+			if c != nil {
+				return &c.ID
+			}
+		}
+	}
+	return nil
+}
+
+// sharesChildID: the plan carries the id of an object of another plan that is in
+// the model (stored), or the other way round.
+func (sw *storeWorld) sharesChildID(i int) (other int, yes bool) {
+	for k := range sw.spec.Plans {
+		j := sw.spec.Plans[k].Steal - 1
+		if j < 0 || j == k {
+			continue
+		}
+		a, b := k, j // k carries an id of j
+		if a != i && b != i {
+			continue
+		}
+		o := a
+		if a == i {
+			o = b
+		}
+		if _, stored := sw.model[o]; !stored {
+			continue
+		}
+		if d, s := childID(sw.live[a], sw.spec.Plans[k].StealKind), childID(sw.live[b], sw.spec.Plans[k].StealKind); d != nil && s != nil && *d == *s {
+			return o, true
+		}
+	}
+	return 0, false
+}
+
 func tFromNs(ns int64) time.Time {
 	if ns == 0 {
 		return time.Time{}
@@ -589,6 +644,26 @@ func (sw *storeWorld) doOp(ci int, op StoreOp) {
 				sw.v.addf("C14", "C14.r5", B+" failed Create left traces of the plan ("+badKind(sw.spec.Plans[op.Plan].BadAt, op.Fault)+")", nil, "plan p%d: %s", op.Plan, n)
 			}
 		default:
+			if other, shares := sw.sharesChildID(op.Plan); shares {
+				// A child object carries the id of an object of another stored plan. Whether such a
+				// Create is refused is the vault's business; either way it is all-or-nothing and
+				// leaves the other plan exactly as it was.
+				sw.probe("create with a child id of another stored plan")
+				if err != nil {
+					if n := sw.traces(op.Plan); n != "" {
+						sw.v.addf("C14", "C14.r5", B+" failed Create left traces of the plan (child id of another plan)", nil, "plan p%d: %s", op.Plan, n)
+					}
+				} else {
+					sw.model[op.Plan] = submitted
+					if got, rerr := sw.readFull(op.Plan); rerr != nil || diffFull(submitted, got) != "" {
+						sw.v.addf("C14", "C14.r5", B+" Create succeeded but the stored plan differs from the submitted one (child id of another plan)", nil, "plan p%d", op.Plan)
+					}
+				}
+				if got, rerr := sw.readFull(other); rerr != nil || diffFull(sw.model[other], got) != "" {
+					sw.v.addf("C14", "C14.r6", B+" Create of a plan with a child id of another plan altered that plan", nil, "created p%d (err=%v), plan p%d changed", op.Plan, err, other)
+				}
+				return
+			}
 			if err != nil {
 				sw.v.addf("C13", "C13.r1", B+" Create of a well-formed plan failed", nil, "plan p%d: %v", op.Plan, err)
 				return
@@ -845,6 +920,15 @@ func (sw *storeWorld) traces(i int) string {
 	ids := map[string]string{}
 	for _, o := range FullSnap(i, p).Objs {
 		ids[o.ID] = o.Path
+	}
+	// an id this plan shares with another stored plan is that plan's row, not a trace of this one
+	for j, m := range sw.model {
+		if j == i {
+			continue
+		}
+		for _, o := range m.Objs {
+			delete(ids, o.ID)
+		}
 	}
 	sv, ok := sw.vault.(*sqlite.Vault)
 	if !ok {
@@ -1250,6 +1334,14 @@ func runStoreInBubble(t *testing.T, spec *StoreSpec, dir string, res *StoreResul
 	sw.unknown = v7(r)
 	for i := range spec.Plans {
 		sw.live = append(sw.live, materialise(i, &spec.Plans[i], r))
+	}
+	for i := range spec.Plans {
+		// not over the cosmosdb fake: it keys documents by id alone and ignores the partition (its own TODO)
+		if j := spec.Plans[i].Steal - 1; j >= 0 && j < len(sw.live) && j != i && spec.Backend != "cosmos" {
+			if dst, src := childID(sw.live[i], spec.Plans[i].StealKind), childID(sw.live[j], spec.Plans[i].StealKind); dst != nil && src != nil {
+				*dst = *src
+			}
+		}
 	}
 	v, err := sw.open()
 	if err != nil {
